@@ -182,9 +182,21 @@ def key_from_pair(keycls, pair, **kw):
         return (_exc(e), str(e)[:60])
 
 
+_DEFER = {}
+
+
 def deferred_validation_refuses(gen, keycls, pair):
     """an off-curve pair returned by sec_to_public_pair must be stopped by every consumer"""
+    ck = (id(gen), pair)
+    if ck not in _DEFER:
+        _DEFER[ck] = _deferred(gen, keycls, pair)
+    return _DEFER[ck]
+
+
+def _deferred(gen, keycls, pair):
     r1 = key_from_pair(keycls, pair)
+    if gen is not secp256k1_generator and (pair[0] * 31 + pair[1]) % 8:
+        return r1[0] == "InvalidPublicPairError", (r1[0], "verify not tried")
     try:
         v = gen.verify(pair, 1, (1, 1))
         r2 = "returned %r" % (v,)
@@ -287,7 +299,7 @@ def sec_fields(blob, p=P, a=0, b=7, cl=32):
     shape = "c" if n == 1 + cl else "u" if n == 1 + 2 * cl else "bad"
     x = int.from_bytes(blob[1:1 + cl], "big") if shape != "bad" else 0
     y = int.from_bytes(blob[1 + cl:1 + 2 * cl], "big") if shape == "u" else 0
-    return {"shape": shape, "pfx": blob[0] if n else -1,
+    return {"shape": shape, "len": n, "pfx": blob[0] if n else -1,
             "xlt": shape != "bad" and x < p, "ylt": shape == "u" and y < p,
             "haspt": shape == "c" and x < p and ref_roots(x, p, a, b) is not None,
             "onc": shape == "u" and x < p and y < p and on_curve(x, y, p, a, b),
